@@ -52,6 +52,8 @@ def df_frame(d, data):
     if d[0] == "proj":
         idx = [cols.index(c) for c in d[2]]
         return list(d[2]), [tuple(r[i] for i in idx) for r in rows]
+    if d[0] == "sel":
+        return [o for _, o in d[2]], [tuple(_ev(e, cols, r) for e, _ in d[2]) for r in rows]
     raise ValueError(d)
 
 
@@ -142,10 +144,23 @@ def observe_lineage(case, session, F, builder=None, self_exact=False, rename_in_
 # ---- Coq rendering ---------------------------------------------------------------------------------------------------
 
 def positions(case):
-    """DF description key -> position in the join chain (first occurrence)"""
+    """DF description key -> position in the join chain (first occurrence).  An intermediate frame (a proper ancestor of
+    exactly one table of the chain, not a table itself) denotes that table: PySpark follows the attribute through
+    where / limit / alias / select-by-name."""
     pos = {}
-    for i, d in enumerate([case["left"]] + [s["right"] for s in case["steps"]]):
+    tabs = [case["left"]] + [s["right"] for s in case["steps"]]
+    for i, d in enumerate(tabs):
         pos.setdefault(cc.key(d), i)
+    anc = {}
+    for i, d in enumerate(tabs):
+        x = d
+        while x[0] != "base":
+            x = x[1]
+            if x[0] != "base":
+                anc.setdefault(cc.key(x), set()).add(i)
+    for k, owners in anc.items():
+        if k not in pos and len(owners) == 1:
+            pos[k] = next(iter(owners))
     return pos
 
 
@@ -279,6 +294,8 @@ def case_coq(case, lin, impl, exported="None", spec_only=False, table_wheres="No
     fin = case.get("fin")
     if fin is None:
         fin_t = "FNone"
+    elif fin[0] == "rename":
+        fin_t = f"(FRename {strlit(fin[1])} {strlit(fin[2])})"
     elif fin[0] == "where":
         fin_t = f"(FWhere {ue_coq(fin[1], case, lin, None)})"
     else:
@@ -307,6 +324,8 @@ def df_str(d):
         return f"{df_str(d[1])}.select({', '.join(map(repr, d[2]))})"
     if d[0] == "limit":
         return f"{df_str(d[1])}.limit({d[2]})"
+    if d[0] == "sel":
+        return f"{df_str(d[1])}.select(" + ", ".join(f"{ue_str(e)} as {o}" for e, o in d[2]) + ")"
     return str(d)
 
 
@@ -345,6 +364,8 @@ def case_str(case):
     if fin:
         if fin[0] == "where":
             s += f".where({ue_str(fin[1])})"
+        elif fin[0] == "rename":
+            s += f".withColumnRenamed('{fin[1]}', '{fin[2]}')"
         else:
             s += ".select(" + ", ".join(f"{ue_str(e)} as {o}" for e, o in fin[1]) + ")"
     return s + f"  [{case['data']}]"
